@@ -403,7 +403,7 @@ var c19wtr = &nodeutil.XMLWtr{}
 
 // a document read back is the same tree for every way of asking: entries of a list with several keys addressed by
 // key, names with dots and dashes (RFC 7950 identifiers), through both writers
-const c19keysYang = `module xk { namespace "urn:xk"; prefix xk; revision 2020-01-01;
+const c19keysYang = `module xk { namespace "urn:xk?a=1&b=<2>'q'"; prefix xk; revision 2020-01-01;
   container c { list route { key "color prefix"; leaf color { type string; } leaf prefix { type string; } leaf metric { type int32; }
       container nh.info { leaf if.name { type string; } leaf-list via-1.a { type string; } } }
     list tri { key "a b c"; leaf a { type int32; } leaf b { type boolean; } leaf c { type string; } leaf v { type string; } } }
@@ -431,6 +431,73 @@ func c19keys(c *core.Ctx) {
 	}
 	whole := `{"c":{"route":[` + strings.Join(routes, ",") + `],"tri":[` + strings.Join(tris, ",") + `]},"top.leaf_x":"dotted"}`
 	ents = append(ents, ent{"", whole}, ent{"c/route=red,nosuch", "nil"}, ent{"c/tri=2,true,y", "nil"})
+	// every start selection: the streaming writer and the document writer produce the same one well-formed element
+	for _, start := range []string{"", "c", "c/route", "c/route=red,10.0.0.0%2F8", "c/route=blue,192.168.0.0%2F16/nh.info", "c/tri", "c/tri=2,false,y"} {
+		var stream, docw string
+		werr := safeDo(func() error {
+			for i, w := range []*string{&stream, &docw} {
+				src, err := nodeutil.ReadJSON(whole)
+				if err != nil {
+					return err
+				}
+				sel, err := node.NewBrowser(m, src).Root().Find(start)
+				if err != nil || sel == nil {
+					return fmt.Errorf("start selection: %v", err)
+				}
+				if i == 0 {
+					*w, err = nodeutil.WriteXML(sel)
+				} else {
+					*w, err = nodeutil.WriteXMLDoc(sel, false)
+				}
+				if err != nil {
+					return err
+				}
+			}
+			return nil
+		})
+		c.Evaluations++
+		c.Count("start_selection", map[bool]string{true: "root", false: "inner"}[start == ""])
+		c.Distinct("c19start " + start)
+		problem := ""
+		if werr != nil {
+			problem = "write fails: " + werr.Error()
+		} else {
+			for name, text := range map[string]string{"WriteXML": stream, "WriteXMLDoc": docw} {
+				dec := stdxml.NewDecoder(strings.NewReader(text))
+				dec.Strict = true
+				depth, roots := 0, 0
+				for {
+					tok, err := dec.Token()
+					if err == io.EOF {
+						break
+					}
+					if err != nil {
+						problem = name + " output is not well-formed: " + err.Error()
+						break
+					}
+					switch tok.(type) {
+					case stdxml.StartElement:
+						if depth == 0 {
+							roots++
+						}
+						depth++
+					case stdxml.EndElement:
+						depth--
+					}
+				}
+				if problem == "" && (roots != 1 || depth != 0) {
+					problem = fmt.Sprintf("%s output has %d root elements (depth at the end %d)", name, roots, depth)
+				}
+			}
+			if problem == "" && stream != docw {
+				problem = "the two writers disagree"
+			}
+		}
+		if problem != "" {
+			c.Violation(core.Replay{Kind: "property-failure", Class: "start-selection", Summary: fmt.Sprintf("start selection %q: %s; WriteXML gives %s, WriteXMLDoc gives %s", start, problem, short(stream), short(docw)),
+				Input: map[string]interface{}{"yang": c19keysYang, "tree": whole, "start": start}, Impl: stream, Spec: docw})
+		}
+	}
 	for _, writer := range []string{"doc-compact", "doc-pretty", "stream"} {
 		var doc string
 		werr := safeDo(func() error {
